@@ -737,6 +737,18 @@ func (e *SpecEnv) call(n *ECall) SV {
 				return e.heldCall(n, false)
 			case "heldR":
 				return e.heldCall(n, true)
+			case "lockstate":
+				// lockstate(m): 0 free, 1 read-locked, 2 write-locked (by the executing thread)
+				x := e.tr(n.Args[0])
+				var addr *Term
+				if x.Addr != nil {
+					addr = x.Addr
+				} else if _, ok := x.Ty.Underlying().(*types.Pointer); ok {
+					addr = e.val(x)
+				} else {
+					sfail("lockstate: not a mutex location")
+				}
+				return SV{T: Select(e.h.ghostVar(e.st, "$held", SArray(SPtr, SInt)), addr), Ty: tInt}
 			case "mapval":
 				// mapval(m, k): the raw stored value (meaningful only when k in m); usable as a trigger
 				m := e.tr(n.Args[0])
